@@ -334,9 +334,12 @@ impl PreferenceManager {
     pub fn set_preference_files(&mut self) -> Result<()> {
         // first, read in the preferences -- need to determine which files to read next
         // the prefs files are in the rules dir and the user dir; differs from other files
-        if self.api_prefs.prefs.is_empty() {
-            self.api_prefs = Preferences{ prefs: DEFAULT_API_PREFERENCES.with(|defaults| defaults.prefs.clone()) };
-        }
+        // make sure all the API defaults are present (a call to set_preference() before set_rules_dir() might have added some prefs already)
+        DEFAULT_API_PREFERENCES.with(|defaults| {
+            for (name, value) in &defaults.prefs {
+                self.api_prefs.prefs.entry(name.clone()).or_insert_with(|| value.clone());
+            }
+        });
 
         // the rules dir might have changed since the system prefs were read
         let is_sys_prefs_in_rules_dir = match self.sys_prefs_file.as_ref() {
